@@ -87,6 +87,19 @@ prop('C06', 'model_checking',
      'Server.parse_authn_request), exception class names compared with the contract', TOOL_NOTE,
      'TLA+ scenario spec + TLC + replay', 'section 5 C06')
 
+prop('C01', 'model_checking',
+     'SigDoc.tla models a signed response as a tree, an attacker with structural edits (forge, change/duplicate/remove IDs, '
+     'move, insert forged or copied assertions and Advice/Extensions/ds:Object/foreign containers, copy signatures, drop, wrap '
+     'the root), the tool view (XmlSecTool.tla T1-T4: first Signature below the start node, references by registered ID, '
+     'structural digests) and the SP view (last-wins parsing, the C02 acceptance table); TLC checks that the repaired '
+     '_check_signature design accepts only documents whose relied-upon element is itself the one its single direct '
+     'signature references and digests, for response-, assertion- and both-level signatures (412 908 documents at 3 edits; '
+     '41.5 M at 4 edits in the thorough tier) and exhibits the wrapping counterexample of the pinned design; every document '
+     'either design or the contract accepts, every document at one edit and a sample of the rest are rendered (verbatim '
+     'copies of really made signatures) and replayed into the SP under four requirement settings; the stand-in is '
+     'cross-checked against TLC-computed tool verdicts for every document', TOOL_NOTE,
+     'TLA+ attacker/tree model + TLC + replay of generated documents', 'section 5 C01')
+
 
 def main():
     props = [json.loads(l) for l in open(os.path.join(VERIF, 'properties.jsonl'))]
